@@ -1,5 +1,6 @@
 import Driver.Proto
 import Driver.C17
+import Driver.C05
 
 open Driver
 
@@ -9,6 +10,12 @@ def main (args : List String) : IO UInt32 := do
   match args with
   | ["c17"] =>
     forLines stdin fun l => stdout.putStrLn (c17Line (fields l))
+    return 0
+  | ["c05"] =>
+    forLines stdin fun l => stdout.putStrLn (c05Line (fields l))
+    return 0
+  | ["c05seq"] =>
+    forLines stdin fun l => stdout.putStrLn (c05Seq (fields l))
     return 0
   | _ =>
     IO.eprintln "usage: cbdriver <cmd>"
